@@ -213,6 +213,62 @@ func checkC18(c *core.Ctx) {
 		}
 		walk(st, nil)
 	}
+	// R5b: the edge of an import statement is added when its worklist element
+	// is processed, so every import of the file just read must be queued: in
+	// the loop over that file's Imports the append to the worklist is a
+	// statement of the loop body itself with nothing before it that can leave
+	// the cycle (a `continue` for files already read drops the edge of the
+	// second import of a file, and a cycle through it is not seen)
+	{
+		found, queuedAll, why := false, true, ""
+		ast.Inspect(loop.Body, func(n ast.Node) bool {
+			rs, ok := n.(*ast.RangeStmt)
+			if !ok {
+				return true
+			}
+			sel, ok := ast.Unparen(rs.X).(*ast.SelectorExpr)
+			if !ok || sel.Sel.Name != "Imports" || typeBaseName(info.TypeOf(sel.X)) != "File" {
+				return true
+			}
+			found = true
+			appendAt := -1
+			for j, st := range rs.Body.List {
+				if as, ok := st.(*ast.AssignStmt); ok && len(as.Lhs) == 1 && len(as.Rhs) == 1 {
+					if l, ok := as.Lhs[0].(*ast.Ident); ok && info.ObjectOf(l) == work {
+						if ap, ok := as.Rhs[0].(*ast.CallExpr); ok && wire.Canon(ap.Fun) == "append" {
+							appendAt = j
+							break
+						}
+					}
+				}
+			}
+			if appendAt < 0 {
+				queuedAll = false
+				why = "the loop over the imports of the file just read at " + p.Pos(rs.Pos()) + " has no append to the worklist among its own statements"
+				return false
+			}
+			for _, st := range rs.Body.List[:appendAt] {
+				ast.Inspect(st, func(k ast.Node) bool {
+					switch y := k.(type) {
+					case *ast.FuncLit:
+						return false
+					case *ast.BranchStmt:
+						queuedAll = false
+						why = "the `" + y.Tok.String() + "` at " + p.Pos(y.Pos()) + " leaves the cycle before the import is queued"
+					case *ast.ReturnStmt:
+						// an error return ends Generate: nothing is dropped silently
+					}
+					return true
+				})
+			}
+			return false
+		})
+		if !found {
+			c.Undecide("File.Generate: no loop over the Imports of the file just read inside the worklist loop: how sub-imports are queued is not recognised")
+		} else {
+			c.Check("R5", "every import of a file just read is queued", pos, queuedAll, why+": the edge of an import statement is added when its worklist element is processed, so an import that is not queued contributes no edge and a cycle through it is not reported")
+		}
+	}
 	c.Check("R5", "a graph edge is added for every import occurrence", pos, edgeOK, whyEdge+": AddEdge must run on every way round the loop (before the de-duplication `continue`, or in its own block), or a package imported twice contributes one edge only and a cycle through the second import is not seen")
 	// R2c: the set that tells files already expanded from new ones is keyed by
 	// a path in one spelling per file. A key glued together from directory and
